@@ -63,7 +63,7 @@ TEXT = {
  },
  "C08": {
   "technique": "property-based schedules over gated handlers, judged on a logical-clock history and wire capture (rapid)",
-  "level_text": "After a generated prior history on the closing side's session (completed calls, pushes, calls that failed locally because their argument cannot be marshalled or their context is cancelled), calls in both directions are parked inside gated handlers (all entered), then Close (session or peer, either end) is invoked, optional late calls are issued, handlers are released in a generated permutation with an optional cut; the oracle reads the logical-clock log and the captured wire: Close blocked while entered handlers run / own calls are unanswered, genuine replies (never 102) for entered handlers unless the connection was cut first, Close returns after handler exits and after their REPLY frames are on the wire.",
+  "level_text": "After a generated prior history on the closing side's session (completed calls, pushes, calls that failed locally because their argument cannot be marshalled or their context is cancelled), calls in both directions are parked inside gated handlers (all entered), then Close (session or peer, either end) is invoked, optional late calls are issued, handlers are released in a generated permutation with an optional cut; the oracle reads the logical-clock log and the captured wire: Close blocked while entered handlers run / own calls are unanswered, genuine replies (never 102) for entered handlers unless the connection was cut first, Close returns after handler exits and after their REPLY frames are on the wire. A second sub-check runs the same scenario over websocket sessions (both sub-protocols, real HTTP upgrade), closing the serving or the dialling end.",
   "level_note": "The placement of Close relative to handler entry is controlled (always after entry); 'request arrived but handler not entered' is only exercised by the late calls and judged for exactly-once completion.",
  },
  "C15": {
